@@ -120,6 +120,9 @@ func main() {
 			if i%2 == 0 {
 				opc = ev.Bytes(r, 16) // an OPc unrelated to OP: OPc takes precedence
 			}
+			if i%16 == 6 {
+				opc = make([]byte, 16) // the all-zero block is an OPc like any other (not "no OPc")
+			}
 			opch = hex.EncodeToString(opc)
 		}
 		if i%4 == 1 { // upper-case hex in the configuration
